@@ -297,6 +297,7 @@ Proof.
     pose proof (DV_validate_sync s ok epos true D Hd) as D1. set (s1 := validate_sync s ok epos true) in *.
     destruct ((vst s1 =? 1) && negb keep); [|exact D1].
     destruct (reset_buf s1 [] 0) as [s2 e2] eqn:Er. cbn [fst]. eapply VS_DV; [eapply VS_reset; eauto|exact D1].
+  - eapply VS_DV; [|exact D]. unfold hist_step, install_menu in E. eapply VS_trans; [|eapply VS_gtc; eauto]. unfold set_completions. vs.
 Qed.
 
 Lemma DV_run ls : forall s, DV s -> det_run s ls -> DV (run s ls).
